@@ -65,6 +65,106 @@ func funcDecl(p *packages.Package, recv, name string) *ast.FuncDecl {
 	return nil
 }
 
+
+// declOfFunc: the declaration (with body) of a function or method of this package, by its types object
+func declOfFunc(p *packages.Package, obj types.Object) *ast.FuncDecl {
+	if obj == nil || obj.Pkg() == nil || obj.Pkg() != p.Types {
+		return nil
+	}
+	for _, f := range p.Syntax {
+		for _, d := range f.Decls {
+			if fd, ok := d.(*ast.FuncDecl); ok && fd.Body != nil && p.TypesInfo.Defs[fd.Name] == obj {
+				return fd
+			}
+		}
+	}
+	return nil
+}
+
+// calleeDecl: the same-package function or method a call expression names, if any
+func calleeDecl(p *packages.Package, c *ast.CallExpr) *ast.FuncDecl {
+	switch f := c.Fun.(type) {
+	case *ast.Ident:
+		return declOfFunc(p, p.TypesInfo.Uses[f])
+	case *ast.SelectorExpr:
+		return declOfFunc(p, p.TypesInfo.Uses[f.Sel])
+	}
+	return nil
+}
+
+// inspectInline walks a body like ast.Inspect and, at every call of a function or method of the same
+// package, walks the callee's body too (helpers extracted by a refactoring are looked through), up to
+// three levels deep.
+func inspectInline(p *packages.Package, n ast.Node, fn func(ast.Node) bool) {
+	inspectInlineF(p, n, fn, nil)
+}
+
+// inspectInlineF: as inspectInline, looking only into the callees `allow` admits
+func inspectInlineF(p *packages.Package, n ast.Node, fn func(ast.Node) bool, allow func(*ast.FuncDecl) bool) {
+	seen := map[*ast.FuncDecl]bool{}
+	var walk func(n ast.Node, depth int)
+	walk = func(n ast.Node, depth int) {
+		if n == nil {
+			return
+		}
+		ast.Inspect(n, func(m ast.Node) bool {
+			if m == nil {
+				return false
+			}
+			if !fn(m) {
+				return false
+			}
+			if c, ok := m.(*ast.CallExpr); ok && depth < 3 {
+				if fd := calleeDecl(p, c); fd != nil && !seen[fd] && (allow == nil || allow(fd)) {
+					seen[fd] = true
+					walk(fd.Body, depth+1)
+				}
+			}
+			return true
+		})
+	}
+	walk(n, 0)
+}
+
+// funcLitOf: a function literal, directly or through a local variable / same-package function that names it
+func funcLitBody(p *packages.Package, scope ast.Node, e ast.Expr) *ast.BlockStmt {
+	switch x := e.(type) {
+	case *ast.FuncLit:
+		return x.Body
+	case *ast.Ident:
+		obj := p.TypesInfo.Uses[x]
+		if fd := declOfFunc(p, obj); fd != nil {
+			return fd.Body
+		}
+		var body *ast.BlockStmt
+		for _, f := range p.Syntax {
+			ast.Inspect(f, func(m ast.Node) bool {
+				switch y := m.(type) {
+				case *ast.AssignStmt:
+					for i, l := range y.Lhs {
+						if id, ok := l.(*ast.Ident); ok && i < len(y.Rhs) && (p.TypesInfo.Defs[id] == obj || p.TypesInfo.Uses[id] == obj) && obj != nil {
+							if fl, ok := y.Rhs[i].(*ast.FuncLit); ok && body == nil {
+								body = fl.Body
+							}
+						}
+					}
+				case *ast.ValueSpec:
+					for i, id := range y.Names {
+						if p.TypesInfo.Defs[id] == obj && obj != nil && i < len(y.Values) {
+							if fl, ok := y.Values[i].(*ast.FuncLit); ok && body == nil {
+								body = fl.Body
+							}
+						}
+					}
+				}
+				return true
+			})
+		}
+		return body
+	}
+	return nil
+}
+
 func leanStr(s string) string { return fmt.Sprintf("%q", s) }
 
 // prefix function used by a List handler: the callee inside NameHasPrefix(<fn>(req.Project))
@@ -76,7 +176,7 @@ func listPrefixFn(fd *ast.FuncDecl) string {
 	ast.Inspect(fd.Body, func(n ast.Node) bool {
 		if c, ok := n.(*ast.CallExpr); ok {
 			if se, ok := c.Fun.(*ast.SelectorExpr); ok && se.Sel.Name == "NameHasPrefix" && len(c.Args) == 1 {
-				if inner, ok := c.Args[0].(*ast.CallExpr); ok {
+				if inner, ok := resolveLocal(fd, c.Args[0]).(*ast.CallExpr); ok {
 					if id, ok := inner.Fun.(*ast.Ident); ok {
 						res = id.Name
 					}
@@ -105,12 +205,79 @@ func prefixSuffix(p *packages.Package, name string) string {
 	return ""
 }
 
-// default page size: `var pageSize int32 = N`
-func pageSizeDefault(p *packages.Package, fd *ast.FuncDecl) int64 {
-	var v int64 = -1
+// resolveLocal: an identifier that a function body defines once (`x := e`, `var x = e`) stands for `e`
+// (a refactoring that names a sub-expression is looked through); anything else is returned as it is
+func resolveLocal(fd *ast.FuncDecl, e ast.Expr) ast.Expr {
+	for depth := 0; depth < 3; depth++ {
+		id, ok := e.(*ast.Ident)
+		if !ok || fd == nil {
+			return e
+		}
+		var defs []ast.Expr
+		ast.Inspect(fd.Body, func(n ast.Node) bool {
+			switch x := n.(type) {
+			case *ast.AssignStmt:
+				for i, l := range x.Lhs {
+					if li, ok := l.(*ast.Ident); ok && li.Name == id.Name && len(x.Lhs) == len(x.Rhs) {
+						defs = append(defs, x.Rhs[i])
+					}
+				}
+			case *ast.ValueSpec:
+				for i, li := range x.Names {
+					if li.Name == id.Name && i < len(x.Values) {
+						defs = append(defs, x.Values[i])
+					}
+				}
+			}
+			return true
+		})
+		if len(defs) != 1 {
+			return e
+		}
+		e = defs[0]
+	}
+	return e
+}
+
+// default page size: `var pageSize int32 = N`, or `pageSize := f(req.PageSize)` where every constant
+// that the same-package function f returns is the same N
+func pageSizeDefault(p *packages.Package, fd *ast.FuncDecl) (v int64) {
+	v = -1
 	if fd == nil {
 		return v
 	}
+	defer func() {
+		if v != -1 {
+			return
+		}
+		c, ok := resolveLocal(fd, ast.NewIdent("pageSize")).(*ast.CallExpr)
+		if !ok {
+			return
+		}
+		callee := calleeDecl(p, c)
+		if callee == nil {
+			return
+		}
+		vals := map[int64]bool{}
+		ast.Inspect(callee.Body, func(n ast.Node) bool {
+			if _, ok := n.(*ast.FuncLit); ok {
+				return false
+			}
+			if rs, ok := n.(*ast.ReturnStmt); ok && len(rs.Results) == 1 {
+				if tv, ok := p.TypesInfo.Types[rs.Results[0]]; ok && tv.Value != nil {
+					if x, ok := constant.Int64Val(constant.ToInt(tv.Value)); ok {
+						vals[x] = true
+					}
+				}
+			}
+			return true
+		})
+		if len(vals) == 1 {
+			for x := range vals {
+				v = x
+			}
+		}
+	}()
 	ast.Inspect(fd.Body, func(n ast.Node) bool {
 		if vs, ok := n.(*ast.ValueSpec); ok && len(vs.Names) == 1 && vs.Names[0].Name == "pageSize" && len(vs.Values) == 1 {
 			if tv, ok := p.TypesInfo.Types[vs.Values[0]]; ok && tv.Value != nil {
@@ -129,21 +296,72 @@ func wakeNilBranch(p *packages.Package) string {
 	if fd == nil {
 		return res
 	}
+	// the waking loop: the range statement whose body closes channels (here or in a helper of the
+	// package).  What matters is whether something in it ends the loop early for the subscriptions
+	// that follow — a `return`, or a `break` of this loop; skipping one subscription (`continue`, an
+	// `if set != nil { … }`, a helper that does nothing on a nil set) is "continue".
+	var loop *ast.RangeStmt
 	ast.Inspect(fd.Body, func(n ast.Node) bool {
-		if ifs, ok := n.(*ast.IfStmt); ok {
-			if be, ok := ifs.Cond.(*ast.BinaryExpr); ok && be.Op == token.EQL {
-				if id, ok := be.X.(*ast.Ident); ok && id.Name == "waitSet" && len(ifs.Body.List) == 1 {
-					switch s := ifs.Body.List[0].(type) {
-					case *ast.ReturnStmt:
-						res = "return"
-					case *ast.BranchStmt:
-						res = strings.ToLower(s.Tok.String())
-					}
-				}
+		rs, ok := n.(*ast.RangeStmt)
+		if !ok || loop != nil {
+			return true
+		}
+		closes := false
+		inspectInline(p, rs.Body, func(m ast.Node) bool {
+			if c, ok := m.(*ast.CallExpr); ok && exprName(c.Fun) == "close" {
+				closes = true
 			}
+			return true
+		})
+		if closes {
+			loop = rs
+			return false
 		}
 		return true
 	})
+	if loop == nil {
+		return res
+	}
+	res = "continue"
+	var walk func(n ast.Node, inner bool)
+	walk = func(n ast.Node, inner bool) {
+		ast.Inspect(n, func(m ast.Node) bool {
+			switch x := m.(type) {
+			case *ast.FuncLit:
+				return false
+			case *ast.ReturnStmt:
+				res = "return"
+			case *ast.BranchStmt:
+				if x.Tok == token.BREAK && (!inner || x.Label != nil) {
+					res = "break"
+				}
+				if x.Tok == token.GOTO {
+					res = "goto"
+				}
+			case *ast.ForStmt:
+				if m != n {
+					walk(x.Body, true)
+					return false
+				}
+			case *ast.RangeStmt:
+				if m != n {
+					walk(x.Body, true)
+					return false
+				}
+			case *ast.SwitchStmt:
+				walk(x.Body, true)
+				return false
+			case *ast.TypeSwitchStmt:
+				walk(x.Body, true)
+				return false
+			case *ast.SelectStmt:
+				walk(x.Body, true)
+				return false
+			}
+			return true
+		})
+	}
+	walk(loop.Body, false)
 	return res
 }
 
@@ -166,12 +384,15 @@ func pullLoopFacts(p *packages.Package) (registersFirst bool, cases []string) {
 		}
 		reg, run := -1, -1
 		for i, st := range fs.Body.List {
-			if as, ok := st.(*ast.AssignStmt); ok && len(as.Lhs) == 1 && len(as.Rhs) == 1 && as.Tok == token.ASSIGN {
-				if id, ok := as.Lhs[0].(*ast.Ident); ok && id.Name == "pubAwaiter" {
-					if c, ok := as.Rhs[0].(*ast.CallExpr); ok && exprName(c.Fun) == "PublishAwaiter" && reg < 0 {
+			// the statement that registers: the first one that calls PublishAwaiter, itself or through a
+			// helper of the package (whatever variable the awaiter is kept in)
+			if reg < 0 {
+				inspectInline(p, st, func(m ast.Node) bool {
+					if c, ok := m.(*ast.CallExpr); ok && exprName(c.Fun) == "PublishAwaiter" && reg < 0 {
 						reg = i
 					}
-				}
+					return true
+				})
 			}
 			hasRun := false
 			ast.Inspect(st, func(m ast.Node) bool {
@@ -290,7 +511,7 @@ func predecessorOrder(p *packages.Package) []string {
 	if fd == nil {
 		return res
 	}
-	ast.Inspect(fd.Body, func(n ast.Node) bool {
+	inspectInline(p, fd.Body, func(n ast.Node) bool {
 		c, ok := n.(*ast.CallExpr)
 		if !ok {
 			return true
@@ -300,41 +521,47 @@ func predecessorOrder(p *packages.Package) []string {
 			return true
 		}
 		for _, a := range c.Args {
-			switch x := a.(type) {
-			case *ast.CallExpr:
+			if x, isCall := a.(*ast.CallExpr); isCall {
 				if len(x.Args) == 1 {
 					res = append(res, strings.TrimPrefix(exprName(x.Fun), "ent.")+":"+strings.TrimPrefix(exprName(x.Args[0]), "delivery.Field"))
 				} else {
 					res = append(res, "?")
 				}
-			case *ast.FuncLit:
-				var calls, names []string
-				ast.Inspect(x.Body, func(m ast.Node) bool {
-					switch y := m.(type) {
-					case *ast.CallExpr:
-						calls = append(calls, exprName(y.Fun))
-					case *ast.SelectorExpr:
-						names = append(names, exprName(y))
-					}
-					return true
-				})
-				has := func(l []string, w string) bool {
-					for _, e := range l {
-						if e == w {
-							return true
-						}
-					}
-					return false
-				}
-				switch {
-				case has(calls, "s.OrderExpr") && has(calls, "sql.Exists") && !has(calls, "sql.Desc") && !has(calls, "sql.NotExists") &&
-					has(names, "delivery.NotBeforeColumn") && has(names, "delivery.FieldID") && has(names, "delivery.Table") && has(calls, "sql.ColumnsEQ"):
-					res = append(res, "Asc:HasSuccessor")
-				default:
-					res = append(res, "func:?")
-				}
-			default:
+				continue
+			}
+			body := funcLitBody(p, fd, a)
+			if body == nil {
 				res = append(res, "?")
+				continue
+			}
+			var calls, names []string
+			ast.Inspect(body, func(m ast.Node) bool {
+				switch y := m.(type) {
+				case *ast.CallExpr:
+					nm := exprName(y.Fun)
+					if i := strings.LastIndex(nm, "."); i >= 0 && !strings.HasPrefix(nm, "sql.") && !strings.HasPrefix(nm, "ent.") {
+						nm = "_" + nm[i:] // a method of a local value: its name, not the variable's
+					}
+					calls = append(calls, nm)
+				case *ast.SelectorExpr:
+					names = append(names, exprName(y))
+				}
+				return true
+			})
+			has := func(l []string, w string) bool {
+				for _, e := range l {
+					if e == w {
+						return true
+					}
+				}
+				return false
+			}
+			switch {
+			case has(calls, "_.OrderExpr") && has(calls, "sql.Exists") && !has(calls, "sql.Desc") && !has(calls, "sql.NotExists") &&
+				has(names, "delivery.NotBeforeColumn") && has(names, "delivery.FieldID") && has(names, "delivery.Table") && has(calls, "sql.ColumnsEQ"):
+				res = append(res, "Asc:HasSuccessor")
+			default:
+				res = append(res, "func:?")
 			}
 		}
 		return true
@@ -350,7 +577,49 @@ func streamerRenewals(p *packages.Package) []string {
 		problem("MessageStreamer.Go not found")
 		return res
 	}
-	ast.Inspect(fd.Body, func(n ast.Node) bool {
+	// awaiter variables: whatever is assigned from PublishAwaiter(..), in Go or in a method / helper of
+	// the package that a goroutine of Go was moved into (names do not matter)
+	isAwaiterCall := func(e ast.Expr) bool {
+		c, ok := e.(*ast.CallExpr)
+		return ok && exprName(c.Fun) == "PublishAwaiter"
+	}
+	objOf := func(id *ast.Ident) types.Object {
+		if o := p.TypesInfo.Defs[id]; o != nil {
+			return o
+		}
+		return p.TypesInfo.Uses[id]
+	}
+	// (the pull action's own loop, reached through getter.ExecuteClient, is pullLoopFacts' business)
+	ownCode := func(c *ast.FuncDecl) bool {
+		if c.Recv == nil || len(c.Recv.List) != 1 {
+			return true
+		}
+		t := c.Recv.List[0].Type
+		if st, ok := t.(*ast.StarExpr); ok {
+			t = st.X
+		}
+		id, ok := t.(*ast.Ident)
+		return ok && id.Name == "MessageStreamer"
+	}
+	awaiters := map[types.Object]bool{}
+	inspectInlineF(p, fd.Body, func(n ast.Node) bool {
+		switch x := n.(type) {
+		case *ast.AssignStmt:
+			for i, l := range x.Lhs {
+				if id, ok := l.(*ast.Ident); ok && i < len(x.Rhs) && isAwaiterCall(x.Rhs[i]) {
+					awaiters[objOf(id)] = true
+				}
+			}
+		case *ast.ValueSpec:
+			for i, id := range x.Names {
+				if i < len(x.Values) && isAwaiterCall(x.Values[i]) {
+					awaiters[objOf(id)] = true
+				}
+			}
+		}
+		return true
+	}, ownCode)
+	inspectInlineF(p, fd.Body, func(n ast.Node) bool {
 		cc, ok := n.(*ast.CommClause)
 		if !ok || cc.Comm == nil {
 			return true
@@ -360,22 +629,24 @@ func streamerRenewals(p *packages.Package) []string {
 			return true
 		}
 		ue, ok := es.X.(*ast.UnaryExpr)
-		if !ok || exprName(ue.X) != "pubNotify" {
+		if !ok {
+			return true
+		}
+		ch, ok := ue.X.(*ast.Ident)
+		if !ok || !awaiters[objOf(ch)] {
 			return true
 		}
 		r := "stale"
 		if len(cc.Body) > 0 {
 			if as, ok := cc.Body[0].(*ast.AssignStmt); ok && len(as.Lhs) == 1 && len(as.Rhs) == 1 {
-				if id, ok := as.Lhs[0].(*ast.Ident); ok && id.Name == "pubNotify" {
-					if c, ok := as.Rhs[0].(*ast.CallExpr); ok && exprName(c.Fun) == "PublishAwaiter" {
-						r = "renews"
-					}
+				if id, ok := as.Lhs[0].(*ast.Ident); ok && objOf(id) == objOf(ch) && isAwaiterCall(as.Rhs[0]) {
+					r = "renews"
 				}
 			}
 		}
 		res = append(res, r)
 		return true
-	})
+	}, ownCode)
 	return res
 }
 
@@ -413,33 +684,61 @@ func streamerReaderReleases(p *packages.Package) []string {
 		problem("reader goroutine of MessageStreamer.Go not found")
 		return res
 	}
-	var stack []ast.Node
-	ast.Inspect(reader.Body, func(n ast.Node) bool {
-		if n == nil {
-			stack = stack[:len(stack)-1]
-			return true
+	// the deletes of the reader itself and of the closures / helpers it calls (a refactoring that hoists
+	// `release` out of the loop, or out of the goroutine, is looked through); one entry per delete
+	found := map[token.Pos]string{}
+	seenBody := map[*ast.BlockStmt]bool{}
+	var walk func(body *ast.BlockStmt, depth int)
+	walk = func(body *ast.BlockStmt, depth int) {
+		if body == nil || seenBody[body] || depth > 3 {
+			return
 		}
-		stack = append(stack, n)
-		c, ok := n.(*ast.CallExpr)
-		if !ok || exprName(c.Fun) != "delete" || len(c.Args) != 2 || exprName(c.Args[0]) != "pending" {
-			return true
-		}
-		r := "unguarded"
-		for i := len(stack) - 2; i >= 0; i-- {
-			is, ok := stack[i].(*ast.IfStmt)
+		seenBody[body] = true
+		var stack []ast.Node
+		ast.Inspect(body, func(n ast.Node) bool {
+			if n == nil {
+				stack = stack[:len(stack)-1]
+				return true
+			}
+			stack = append(stack, n)
+			c, ok := n.(*ast.CallExpr)
 			if !ok {
-				continue
+				return true
 			}
-			if be, ok := is.Cond.(*ast.BinaryExpr); ok && be.Op == token.EQL {
-				if ix, ok := be.X.(*ast.IndexExpr); ok && exprName(ix.X) == "pending" && exprName(ix.Index) == exprName(c.Args[1]) {
-					r = "guarded"
+			if id, ok := c.Fun.(*ast.Ident); ok && id.Name != "delete" {
+				walk(funcLitBody(p, fd, id), depth+1)
+			} else if callee := calleeDecl(p, c); callee != nil {
+				walk(callee.Body, depth+1)
+			}
+			if exprName(c.Fun) != "delete" || len(c.Args) != 2 || exprName(c.Args[0]) != "pending" {
+				return true
+			}
+			r := "unguarded"
+			for i := len(stack) - 2; i >= 0; i-- {
+				is, ok := stack[i].(*ast.IfStmt)
+				if !ok {
+					continue
 				}
+				if be, ok := is.Cond.(*ast.BinaryExpr); ok && be.Op == token.EQL {
+					if ix, ok := be.X.(*ast.IndexExpr); ok && exprName(ix.X) == "pending" && exprName(ix.Index) == exprName(c.Args[1]) {
+						r = "guarded"
+					}
+				}
+				break
 			}
-			break
-		}
-		res = append(res, r)
-		return true
-	})
+			found[c.Pos()] = r
+			return true
+		})
+	}
+	walk(reader.Body, 0)
+	var poss []token.Pos
+	for ps := range found {
+		poss = append(poss, ps)
+	}
+	sort.Slice(poss, func(i, j int) bool { return poss[i] < poss[j] })
+	for _, ps := range poss {
+		res = append(res, found[ps])
+	}
 	return res
 }
 
@@ -483,9 +782,21 @@ func streamerBooksBeforeSend(p *packages.Package) []string {
 				}
 			}
 		case *ast.CallExpr:
-			name := exprName(x.Fun)
-			if name == "conn.Send" || name == "sb.SendBatch" {
+			// a send: `<conn>.Send(ctx, d)` / `<conn>.SendBatch(ctx, ds)`, whatever the connection is called,
+			// here or in a helper of the package called from here (it then counts at the helper's call)
+			isSend := func(c *ast.CallExpr) bool {
+				se, ok := c.Fun.(*ast.SelectorExpr)
+				return ok && (se.Sel.Name == "Send" || se.Sel.Name == "SendBatch") && len(c.Args) == 2
+			}
+			if isSend(x) {
 				sends = append(sends, x.Pos())
+			} else if callee := calleeDecl(p, x); callee != nil {
+				inspectInline(p, callee.Body, func(m ast.Node) bool {
+					if c, ok := m.(*ast.CallExpr); ok && isSend(c) {
+						sends = append(sends, x.Pos())
+					}
+					return true
+				})
 			}
 		}
 		return true
@@ -615,19 +926,25 @@ func pushSuccessCodes(p *packages.Package) []int64 {
 	if fd == nil {
 		return codes
 	}
-	ast.Inspect(fd.Body, func(n ast.Node) bool {
-		if sw, ok := n.(*ast.SwitchStmt); ok {
-			if se, ok := sw.Tag.(*ast.SelectorExpr); ok && se.Sel.Name == "StatusCode" {
-				for _, st := range sw.Body.List {
-					cc := st.(*ast.CaseClause)
-					if len(cc.List) > 0 && codes == nil {
-						for _, e := range cc.List {
-							if tv, ok := p.TypesInfo.Types[e]; ok && tv.Value != nil {
-								c, _ := constant.Int64Val(constant.ToInt(tv.Value))
-								codes = append(codes, c)
+	// the first switch reached from Send (helpers of the package are looked into) whose first case
+	// lists HTTP status constants: on `resp.StatusCode` itself or on a parameter it was passed as
+	inspectInline(p, fd.Body, func(n ast.Node) bool {
+		if sw, ok := n.(*ast.SwitchStmt); ok && sw.Tag != nil && codes == nil {
+			for _, st := range sw.Body.List {
+				cc := st.(*ast.CaseClause)
+				if len(cc.List) > 0 {
+					var cs []int64
+					for _, e := range cc.List {
+						if tv, ok := p.TypesInfo.Types[e]; ok && tv.Value != nil {
+							if c, ok := constant.Int64Val(constant.ToInt(tv.Value)); ok && c >= 100 && c <= 599 {
+								cs = append(cs, c)
 							}
 						}
 					}
+					if len(cs) == len(cc.List) {
+						codes = cs
+					}
+					break
 				}
 			}
 		}
@@ -638,6 +955,43 @@ func pushSuccessCodes(p *packages.Package) []int64 {
 		problem("push success status codes not found")
 	}
 	return codes
+}
+
+// the distinct integer constants of httpPushStreamConn.Receive and of the helpers of the package it
+// calls (literals and named constants alike), ascending: the window's lower bound, the nack factor,
+// the window's upper bound
+func windowConsts(p *packages.Package, fd *ast.FuncDecl) []int64 {
+	seen := map[int64]bool{}
+	if fd == nil {
+		return nil
+	}
+	inspectInline(p, fd.Body, func(n ast.Node) bool {
+		var e ast.Expr
+		switch x := n.(type) {
+		case *ast.BasicLit:
+			if x.Kind == token.INT {
+				e = x
+			}
+		case *ast.Ident:
+			if _, ok := p.TypesInfo.Uses[x].(*types.Const); ok {
+				e = x
+			}
+		}
+		if e != nil {
+			if tv, ok := p.TypesInfo.Types[e]; ok && tv.Value != nil && tv.Value.Kind() == constant.Int {
+				if c, ok := constant.Int64Val(tv.Value); ok {
+					seen[c] = true
+				}
+			}
+		}
+		return true
+	})
+	var res []int64
+	for c := range seen {
+		res = append(res, c)
+	}
+	sort.Slice(res, func(i, j int) bool { return res[i] < res[j] })
+	return res
 }
 
 // integer literals in httpPushStreamConn.Receive, in source order
@@ -692,8 +1046,113 @@ func exprName(e ast.Expr) string {
 // shape "guarded": BODY calls c.Commit first and reaches a Wake* call only when the commit returned nil
 type hook struct{ where, shape string }
 
+// "guarded runner": a helper of the package that takes a `func()` and does nothing with it but call it
+// inside a commit hook it registers (runAfterCommit(tx, func() { Wake…() })).  The parameter then counts
+// as a wake inside the helper (so the helper's own hook is classified as strictly as any other), and
+// a call of the helper counts as a hook at its call sites.
+var (
+	wakeParams  = map[types.Object]bool{}
+	runnerDecls = map[types.Object]bool{}
+	wakeInfos   []*types.Info
+)
+
+func findRunners(p *packages.Package) {
+	wakeInfos = append(wakeInfos, p.TypesInfo)
+	for _, f := range p.Syntax {
+		if strings.HasSuffix(p.Fset.Position(f.Pos()).Filename, "_test.go") {
+			continue
+		}
+		for _, d := range f.Decls {
+			fd, ok := d.(*ast.FuncDecl)
+			if !ok || fd.Body == nil || fd.Type.Params == nil {
+				continue
+			}
+			var hooks []*ast.CallExpr
+			ast.Inspect(fd.Body, func(n ast.Node) bool {
+				if c, ok := n.(*ast.CallExpr); ok {
+					if se, ok := c.Fun.(*ast.SelectorExpr); ok && se.Sel.Name == "OnCommit" && len(c.Args) == 1 {
+						hooks = append(hooks, c)
+					}
+				}
+				return true
+			})
+			if len(hooks) == 0 {
+				continue
+			}
+			for _, fld := range fd.Type.Params.List {
+				ft, ok := fld.Type.(*ast.FuncType)
+				if !ok || (ft.Params != nil && len(ft.Params.List) != 0) || (ft.Results != nil && len(ft.Results.List) != 0) {
+					continue
+				}
+				for _, name := range fld.Names {
+					obj := p.TypesInfo.Defs[name]
+					if obj == nil {
+						continue
+					}
+					// every use: the callee of a call, inside one of the hooks
+					uses, good := 0, true
+					calleeIdents := map[*ast.Ident]bool{}
+					ast.Inspect(fd.Body, func(n ast.Node) bool {
+						if c, ok := n.(*ast.CallExpr); ok {
+							if id, ok := c.Fun.(*ast.Ident); ok && p.TypesInfo.Uses[id] == obj && len(c.Args) == 0 {
+								calleeIdents[id] = true
+							}
+						}
+						return true
+					})
+					ast.Inspect(fd.Body, func(n ast.Node) bool {
+						if id, ok := n.(*ast.Ident); ok && p.TypesInfo.Uses[id] == obj {
+							uses++
+							inside := false
+							for _, h := range hooks {
+								if h.Args[0].Pos() <= id.Pos() && id.End() <= h.Args[0].End() {
+									inside = true
+								}
+							}
+							if !inside || !calleeIdents[id] {
+								good = false
+							}
+						}
+						return true
+					})
+					if uses > 0 && good {
+						wakeParams[obj] = true
+						runnerDecls[p.TypesInfo.Defs[fd.Name]] = true
+					}
+				}
+			}
+		}
+	}
+}
+
+func useOf(id *ast.Ident) types.Object {
+	for _, inf := range wakeInfos {
+		if o := inf.Uses[id]; o != nil {
+			return o
+		}
+	}
+	return nil
+}
+
+func isRunnerCall(n ast.Node) bool {
+	c, ok := n.(*ast.CallExpr)
+	if !ok {
+		return false
+	}
+	switch f := c.Fun.(type) {
+	case *ast.Ident:
+		return runnerDecls[useOf(f)]
+	case *ast.SelectorExpr:
+		return runnerDecls[useOf(f.Sel)]
+	}
+	return false
+}
+
 func isWakeCall(n ast.Node) bool {
 	if c, ok := n.(*ast.CallExpr); ok {
+		if id, ok := c.Fun.(*ast.Ident); ok && wakeParams[useOf(id)] {
+			return true
+		}
 		name := exprName(c.Fun)
 		return strings.HasPrefix(name, "Wake") || strings.Contains(name, ".Wake")
 	}
@@ -810,6 +1269,9 @@ func strayWakes(p *packages.Package) []string {
 				if se, ok := c.Fun.(*ast.SelectorExpr); ok && se.Sel.Name == "OnCommit" {
 					inHook = append(inHook, c)
 				}
+				if isRunnerCall(c) {
+					inHook = append(inHook, c)
+				}
 			}
 			return true
 		})
@@ -840,25 +1302,43 @@ func faultsCheckShape(p *packages.Package) []string {
 	if fd == nil {
 		return shape
 	}
-	ast.Inspect(fd.Body, func(n ast.Node) bool {
+	// names do not matter: the receiver and the description may be called anything, the counter's new
+	// value is whatever variable the atomic add is assigned to, and helpers of the package are looked into
+	remaining := "remaining"
+	lastSel := func(e ast.Expr) string {
+		if se, ok := e.(*ast.SelectorExpr); ok {
+			return se.Sel.Name
+		}
+		return ""
+	}
+	inspectInline(p, fd.Body, func(n ast.Node) bool {
 		switch x := n.(type) {
+		case *ast.AssignStmt:
+			if len(x.Lhs) == 1 && len(x.Rhs) == 1 {
+				if c, ok := x.Rhs[0].(*ast.CallExpr); ok && exprName(c.Fun) == "atomic.AddInt64" {
+					if id, ok := x.Lhs[0].(*ast.Ident); ok {
+						remaining = id.Name
+					}
+				}
+			}
 		case *ast.CallExpr:
 			name := exprName(x.Fun)
 			switch {
-			case name == "s.match":
+			case lastSel(x.Fun) == "match" && calleeDecl(p, x) != nil:
 				shape = append(shape, "match")
+				return false // the lookup itself is faultsSetMatchLock's and faultsMatchShape's business
 			case name == "atomic.AddInt64" && len(x.Args) == 2:
 				if tv, ok := p.TypesInfo.Types[x.Args[1]]; ok && tv.Value != nil {
 					shape = append(shape, "atomic-add:"+tv.Value.ExactString())
 				} else {
 					shape = append(shape, "atomic-add:?")
 				}
-			case name == "d.OnFault":
+			case lastSel(x.Fun) == "OnFault":
 				shape = append(shape, "fire")
 			}
 		case *ast.IfStmt:
 			if be, ok := x.Cond.(*ast.BinaryExpr); ok {
-				if id, ok := be.X.(*ast.Ident); ok && id.Name == "remaining" {
+				if id, ok := be.X.(*ast.Ident); ok && id.Name == remaining {
 					if tv, ok := p.TypesInfo.Types[be.Y]; ok && tv.Value != nil && tv.Value.ExactString() == "0" {
 						switch be.Op {
 						case token.LEQ:
@@ -890,21 +1370,71 @@ func faultsMatchShape(p *packages.Package) []string {
 	if fd == nil {
 		return shape
 	}
-	for _, st := range fd.Body.List {
-		switch x := st.(type) {
-		case *ast.IfStmt:
-			if be, ok := x.Cond.(*ast.BinaryExpr); ok {
-				l := exprName(be.X)
-				shape = append(shape, "if:"+l+be.Op.String()+exprName(be.Y))
+	// names do not matter (the receiver reads "d", the parameters "op" and "params"), and a final
+	// `return helper(args)` is continued in the helper with its parameters standing for the arguments
+	subst := map[string]string{}
+	if fd.Recv != nil && len(fd.Recv.List) == 1 && len(fd.Recv.List[0].Names) == 1 {
+		subst[fd.Recv.List[0].Names[0].Name] = "d"
+	}
+	canon := []string{"op", "params"}
+	i := 0
+	for _, fld := range fd.Type.Params.List {
+		for _, nm := range fld.Names {
+			if i < len(canon) {
+				subst[nm.Name] = canon[i]
 			}
-		case *ast.RangeStmt:
-			shape = append(shape, "range:"+exprName(x.X))
-		case *ast.ReturnStmt:
-			if len(x.Results) == 1 {
-				shape = append(shape, "return:"+exprName(x.Results[0]))
+			i++
+		}
+	}
+	var render func(e ast.Expr, sub map[string]string) string
+	render = func(e ast.Expr, sub map[string]string) string {
+		switch x := e.(type) {
+		case *ast.Ident:
+			if r, ok := sub[x.Name]; ok {
+				return r
+			}
+			return x.Name
+		case *ast.SelectorExpr:
+			return render(x.X, sub) + "." + x.Sel.Name
+		case *ast.CallExpr:
+			return render(x.Fun, sub) + "()"
+		}
+		return "?"
+	}
+	var flatten func(body *ast.BlockStmt, sub map[string]string, depth int)
+	flatten = func(body *ast.BlockStmt, sub map[string]string, depth int) {
+		for _, st := range body.List {
+			switch x := st.(type) {
+			case *ast.IfStmt:
+				if be, ok := x.Cond.(*ast.BinaryExpr); ok {
+					shape = append(shape, "if:"+render(be.X, sub)+be.Op.String()+render(be.Y, sub))
+				}
+			case *ast.RangeStmt:
+				shape = append(shape, "range:"+render(x.X, sub))
+			case *ast.ReturnStmt:
+				if len(x.Results) == 1 {
+					if c, ok := x.Results[0].(*ast.CallExpr); ok && depth < 3 {
+						if callee := calleeDecl(p, c); callee != nil && callee.Recv == nil {
+							inner := map[string]string{}
+							k := 0
+							for _, fld := range callee.Type.Params.List {
+								for _, nm := range fld.Names {
+									if k < len(c.Args) {
+										inner[nm.Name] = render(c.Args[k], sub)
+									}
+									k++
+								}
+							}
+							flatten(callee.Body, inner, depth+1)
+							continue
+						}
+					}
+					shape = append(shape, "return:"+render(x.Results[0], sub))
+				}
 			}
 		}
 	}
+	flatten(fd.Body, subst, 0)
 	return shape
 }
 
@@ -948,23 +1478,45 @@ func streamerRefreshApplies(p *packages.Package) []string {
 	if fd == nil {
 		return res
 	}
-	ast.Inspect(fd.Body, func(n ast.Node) bool {
+	// by types, not by names: the loop that deletes from the map of pending messages and reads the
+	// database's answer (a map of deliveries) — in Go or in a method / helper a goroutine was moved into.
+	// "ids": it ranges over a slice (the ids taken before the query); "pending": over the live map.
+	typeStr := func(e ast.Expr) string {
+		if tv, ok := p.TypesInfo.Types[e]; ok && tv.Type != nil {
+			return tv.Type.String()
+		}
+		return ""
+	}
+	isPendingMap := func(e ast.Expr) bool {
+		t := typeStr(e)
+		return strings.HasPrefix(t, "map[") && strings.HasSuffix(t, "pendingMessage")
+	}
+	inspectInline(p, fd.Body, func(n ast.Node) bool {
 		rs, ok := n.(*ast.RangeStmt)
 		if !ok {
 			return true
 		}
 		deletes, reads := false, false
 		ast.Inspect(rs.Body, func(m ast.Node) bool {
-			if c, ok := m.(*ast.CallExpr); ok && exprName(c.Fun) == "delete" && len(c.Args) == 2 && exprName(c.Args[0]) == "pending" {
+			if c, ok := m.(*ast.CallExpr); ok && exprName(c.Fun) == "delete" && len(c.Args) == 2 && isPendingMap(c.Args[0]) {
 				deletes = true
 			}
-			if ix, ok := m.(*ast.IndexExpr); ok && exprName(ix.X) == "deliveryMap" {
-				reads = true
+			if ix, ok := m.(*ast.IndexExpr); ok {
+				if t := typeStr(ix.X); strings.HasPrefix(t, "map[") && strings.HasSuffix(t, "ent.Delivery") {
+					reads = true
+				}
 			}
 			return true
 		})
 		if deletes && reads {
-			res = append(res, exprName(rs.X))
+			switch t := typeStr(rs.X); {
+			case strings.HasPrefix(t, "[]"):
+				res = append(res, "ids")
+			case isPendingMap(rs.X):
+				res = append(res, "pending")
+			default:
+				res = append(res, exprName(rs.X))
+			}
 		}
 		return true
 	})
@@ -1059,12 +1611,21 @@ func main() {
 		ls[i] = fmt.Sprint(c)
 	}
 	fmt.Fprintf(&out, "/-- integer literals of httpPushStreamConn.Receive in source order (window arithmetic) -/\ndef pushReceiveLits : List Int := [%s]\n", strings.Join(ls, ", "))
+	{
+		var ws []string
+		for _, c := range windowConsts(act, funcDecl(act, "httpPushStreamConn", "Receive")) {
+			ws = append(ws, fmt.Sprint(c))
+		}
+		fmt.Fprintf(&out, "/-- the distinct integer constants of httpPushStreamConn.Receive and its helpers, ascending (window floor, nack factor, window ceiling) -/\ndef pushWindowConsts : List Int := [%s]\n", strings.Join(ws, ", "))
+	}
 
 	un := interceptors(grpcp, "ChainUnaryInterceptor")
 	st := interceptors(grpcp, "ChainStreamInterceptor")
 	fmt.Fprintf(&out, "\n/-- production interceptor chains of grpc/server.go -/\ndef unaryInterceptors : List String := %s\ndef streamInterceptors : List String := %s\n", q(un), q(st))
 
 	var hooks []hook
+	findRunners(act)
+	findRunners(svc)
 	hooks = append(hooks, commitHooks(act)...)
 	hooks = append(hooks, commitHooks(svc)...)
 	sort.Slice(hooks, func(i, j int) bool { return hooks[i].where < hooks[j].where })
